@@ -1,0 +1,66 @@
+//go:build verif
+
+package vgirpc
+
+import (
+	"context"
+
+	"github.com/apache/arrow-go/v18/arrow"
+	"github.com/apache/arrow-go/v18/arrow/array"
+)
+
+// Constants for property C09 (__describe__). Everything is recovered from what
+// buildDescribeBatch actually emits for probe servers, so a change to a
+// metadata key, the default protocol name or the method-type strings shows up
+// in Gen/Consts.v (and re-checks the proofs stated over these names).
+func init() {
+	verifConstProviders = append(verifConstProviders, func() []VerifConst {
+		type probeP struct{}
+		empty := NewServer()
+		batch0, meta0 := empty.buildDescribeBatch()
+		batch0.Release()
+
+		probe := NewServer()
+		probe.SetServiceName("svc")
+		probe.SetServerID("sid")
+		probe.SetProtocolVersion("1.2.3")
+		UnaryVoid(probe, "a", func(context.Context, *CallContext, probeP) error { return nil })
+		Producer(probe, "b", arrow.NewSchema(nil, nil),
+			func(context.Context, *CallContext, probeP) (*StreamResult, error) { return nil, nil })
+		batch1, meta1 := probe.buildDescribeBatch()
+		defer batch1.Release()
+		mt := batch1.Column(1).(*array.String)
+
+		// meta keys in emission order: protocol_name, request_version,
+		// describe_version, protocol_hash, server_id, protocol_version
+		k := meta1.Keys()
+		for len(k) < 6 {
+			k = append(k, "")
+		}
+		v0 := meta0.Values()
+		for len(v0) < 3 {
+			v0 = append(v0, "")
+		}
+		return []VerifConst{
+			verifBytes("c09_k_protocol_name", k[0]),
+			verifBytes("c09_k_request_version", k[1]),
+			verifBytes("c09_k_describe_version", k[2]),
+			verifBytes("c09_k_protocol_hash", k[3]),
+			verifBytes("c09_k_server_id", k[4]),
+			verifBytes("c09_k_protocol_version", k[5]),
+			verifBytes("c09_default_protocol_name", v0[0]),
+			verifBytes("c09_wire_version", v0[1]),
+			verifBytes("c09_describe_version", v0[2]),
+			verifBytes("c09_mt_unary", mt.Value(0)),
+			verifBytes("c09_mt_stream", mt.Value(1)),
+			verifBytes("c09_empty_schema_ipc", string(serializeSchema(arrow.NewSchema(nil, nil)))),
+		}
+	})
+}
+
+// VerifC09AddConsts lets the C09 harness publish the IPC bytes of the schema
+// family it registers as one generated constant (c09_pool), so that generated
+// cases can name a schema by its index instead of repeating its bytes.
+func VerifC09AddConsts(p func() []VerifConst) {
+	verifConstProviders = append(verifConstProviders, p)
+}
